@@ -132,12 +132,22 @@ class C19(Property):
         for fam, per in (("cart1m", [True]), ("cart2m", [False, True])):
             for n in (9, 13, 21, 26):
                 jobs.append({"domain": "parallel-refinement", "family": fam, "periodic": per, "n": n})
+        # refinement that is stopped before it has converged (documented pass-through of solver options)
+        for fam, per in (("cart1", [False]), ("cart2", [True, True]), ("polar", []), ("cyl", [False])):
+            jobs.append({"domain": "evaluation-budget", "family": fam, "periodic": per})
         # a minimal radius that removes some candidates (the first one in scan order, or the last one) and keeps the others
         for fam, per in (("cart1", [True]), ("cart2", [False, True]), ("cart3", [True, False, True]), ("cyl", [False]), ("cyl", [True])):
             jobs.append({"domain": "minimal-radius", "family": fam, "periodic": per})
         return jobs
 
     def expand(self, job):
+        if job["domain"] == "evaluation-budget":
+            for image in ("one", "three", "one+speck"):
+                for modes in ((0,) if job["family"] == "cart1" else (0, 2)):
+                    for width in WIDTHS:
+                        for nfev in (1, 2, 3, 5, 8):
+                            yield {"family": job["family"], "periodic": job["periodic"], "modes": modes, "refine": True, "interface_width": width, "threshold": 0.5, "image": image, "max_nfev": nfev}
+            return
         if job["domain"] == "minimal-radius":
             for image in ("three", "small-first"):
                 for modes in ((0,) if job["family"] == "cart1" else (0, 2)):
@@ -168,6 +178,9 @@ class C19(Property):
         field, n_true = make_field(grid, fam, spec["image"])
         ctx.cls(fam, f"modes{modes}", f"refine:{refine}", f"width:{width}", f"thr:{spec['threshold']}", f"image:{spec['image']}")
         kwargs = dict(threshold=spec["threshold"], modes=modes, interface_width=width, refine=refine)
+        if spec.get("max_nfev"):
+            kwargs["refine_args"] = {"least_squares_params": {"max_nfev": spec["max_nfev"]}}
+            ctx.cls("evaluation-budget")
         if spec.get("minimal_radius"):
             # between the two smallest cluster radii of this image: the smallest candidate is removed, the others are kept
             radii = sorted(float(d.radius) for d in locate_droplets(field, threshold=spec["threshold"]))
